@@ -1665,6 +1665,18 @@ func (e *Engine) deleteSeriesRange(seriesKeys [][]byte, min, max int64) error {
 	// Sort the series keys because ApplyEntryFn iterates over the keys randomly.
 	bytesutil.Sort(deleteKeys)
 
+	// A key can be reported twice: by the live cache and by a snapshot kept
+	// for a retry.
+	if len(deleteKeys) > 1 {
+		uniq := deleteKeys[:1]
+		for _, k := range deleteKeys[1:] {
+			if !bytes.Equal(k, uniq[len(uniq)-1]) {
+				uniq = append(uniq, k)
+			}
+		}
+		deleteKeys = uniq
+	}
+
 	if verifhook.Enabled {
 		verifhook.Point("engine.delete.tombstoned", e.path)
 	}
